@@ -62,7 +62,7 @@ TRUSTED = ['modelled, not verified: numpy.broadcast on object arrays, openpyxl A
 REQUIRED_BUCKETS = ['op:scalar-scalar', 'op:scalar-array', 'op:same-shape', 'op:single-row', 'op:single-col',
                     'op:row-col', 'op:incompatible', 'fn:scalars', 'fn:array+scalar', 'fn:equal-shapes',
                     'fn:unequal-shapes', 'fn:oracle-only', 'fit', 'wb:val', 'wb:op', 'wb:fn', 'wb:1x1',
-                    'op:big', 'op:twins', 'op:pow', 'fn:twins', 'wb:chain0', 'wb:chain1', 'wb:chain2', 'wb:chain3',
+                    'op:big', 'op:twins', 'op:pow', 'op:large', 'fn:large', 'wb:large', 'fn:twins', 'wb:chain0', 'wb:chain1', 'wb:chain2', 'wb:chain3',
                     'wb:chain2:set_value', 'wb:chain3:set_value']
 EXHAUSTIVE = False
 EXPLANATION = ('Shapes are enumerated exhaustively up to 4×4 (operands, results and targets); element values are '
@@ -96,6 +96,9 @@ TWINS = ['n:7/1', 's:55', 'n:1/1', 'b:1', 's:49', 'n:0/1', 'b:0', 'z', 's:', 's:
          'nf:7/1', 's:78,111,110,101']          # … "7", "1", "0", "", "2.5", 7.0, "None"
 TWINS_WB = [t for t in TWINS if t not in ('s:',)]
 NOBLANK = [t for t in POOL if t != 'z']
+# no size ceiling for a size-triggered code path to hide behind: large shapes and sweeps around typical thresholds
+LARGE = [(1, 64), (64, 1), (8, 8), (1, 100), (100, 1), (16, 16), (3, 50)]
+SWEEP = list(range(60, 71)) + list(range(250, 261))
 # operands of `^` reaching every outcome class of the scalar kernel (C10): a number, ZeroDivisionError -> #DIV/0!,
 # OverflowError -> #NUM!, complex -> #NUM!, non-number -> #VALUE!, error operand passed through
 POW_BASE = ['n:-8/1', 'n:-1/1', 'n:0/1', 'n:2/1', 'n:4/1', 'n:21/2', 'n:1/4', 'n:7/1', 'nf:-8/1', 's:97', 'z',
@@ -206,6 +209,29 @@ def const_ref(o):
     return const_text(o)
 
 
+def operands_of(form):
+    t = form['t']
+    if t == 'val':
+        return [form['res']]
+    if t == 'op':
+        return [form['R']] if form['op'] == 'USub' else [form['L']] if form['op'] == 'Pct' else [form['L'], form['R']]
+    return form['args']
+
+
+def anchors_for(opnds):
+    """top-left columns of the operand blocks: A, F, K for operands up to 4 columns wide, further apart for wider ones;
+    also returns the first free column after the blocks"""
+    out, start = [], 1
+    for o in opnds:
+        out.append(col(start))
+        start += max(shape(o)[1] if is_arr(o) else 1, 4) + 1
+    return out, start
+
+
+def target_col(form):
+    return max(TARGET_COL, anchors_for(operands_of(form))[1] + 1)
+
+
 def formula_of(form, mode='range'):
     """(formula text, cells, ranges) for eval_formula; operands sit in the blocks at A1, F1, K1"""
     t = form['t']
@@ -217,7 +243,7 @@ def formula_of(form, mode='range'):
     else:
         opnds = form['args']
     cells, ranges, refs = {}, {}, []
-    for anchor, o in zip(ANCHORS, opnds):
+    for anchor, o in zip(anchors_for(opnds)[0], opnds):
         if mode == 'const' or (is_arr(o) and shape(o) == (1, 1)):
             refs.append(const_ref(o))
             continue
@@ -412,6 +438,39 @@ def cases(tier, rng):
                 args = [draw(rng, sa)] + [draw(rng, rng.choice([None, sa])) for _ in range(arity - 1)]
                 yield {'k': 'wb', 'h': h, 'w': w, 'form': {'t': 'fn', 'fn': name, 'args': args}}
 
+    # (d) LARGE shapes with typed-twin-rich element sequences (==-equal values of different type at many positions)
+    sweep = [((1, n) if n % 2 else (n, 1)) for n in SWEEP]
+    big_fns = ['isnumber', 'islogical', 'istext', 'n', 'if_', 'exact', 'mod', 'isblank', 'isnontext']
+    for shp in LARGE + sweep:
+        swept = shp in sweep
+        for name in (big_fns if not swept or thorough else ['isnumber', 'islogical', 'n', 'exact']):
+            arity = (FNS.get(name) or ORACLE_FNS[name])[1]
+            args = [draw(rng, shp, TWINS)] + [draw(rng, rng.choice([None, shp]), TWINS) for _ in range(arity - 1)]
+            yield {'k': 'fn', 'fn': name, 'args': args, 'pool': 'large'}
+        for op in (['Add', 'Eq', 'BitAnd', 'Mult', 'Lt'] if not swept or thorough else ['Eq', 'Add']):
+            yield {'k': 'op', 'op': op, 'L': draw(rng, shp, TWINS), 'R': draw(rng, rng.choice([None, shp]), TWINS),
+                   'mode': 'range', 'pool': 'large'}
+        yield {'k': 'op', 'op': 'Mult', 'L': draw(rng, shp, BIG), 'R': draw(rng, shp, BIG), 'mode': 'range',
+               'pool': 'large'}
+        yield {'k': 'fit', 'h': 3, 'w': 5, 'res': draw(rng, shp, TWINS)}
+        yield {'k': 'fit', 'h': shp[0] + 1, 'w': shp[1] + 1, 'res': draw(rng, rng.choice([None, (1, shp[1]), (shp[0], 1)]),
+                                                                          TWINS)}
+    yield {'k': 'op', 'op': 'Eq', 'L': draw(rng, (64, 1), TWINS), 'R': draw(rng, (1, 64), TWINS), 'mode': 'range',
+           'pool': 'large'}
+    # … and through real ArrayFormula workbooks: target = the large range, and a smaller target so that trim applies
+    for shp in LARGE + [(1, 65), (63, 1), (256, 1), (1, 257)]:
+        for (h, w) in (shp, (max(1, shp[0] // 2), max(1, shp[1] - 1))):
+            name = rng.choice(['isnumber', 'islogical', 'n', 'exact'])
+            arity = FNS.get(name, ORACLE_FNS.get(name))[1]
+            if name in FNS:
+                yield {'k': 'wb', 'h': h, 'w': w, 'large': True, 'form': {
+                    't': 'fn', 'fn': name,
+                    'args': [draw(rng, shp, TWINS_WB)] + [draw(rng, shp, TWINS_WB) for _ in range(arity - 1)]}}
+            yield {'k': 'wb', 'h': h, 'w': w, 'large': True, 'mf': bool(rng.random() < 0.5), 'form': {
+                't': 'op', 'op': rng.choice(['Eq', 'Add', 'BitAnd']), 'L': draw(rng, shp, TWINS_WB),
+                'R': draw(rng, rng.choice([None, shp]), TWINS_WB)}}
+            yield {'k': 'wb', 'h': h, 'w': w, 'large': True, 'form': {
+                't': 'fn', 'fn': 'isnumber', 'args': [draw(rng, shp, TWINS_WB)]}}
     # (c) nested evaluation contexts: the operands are reached through chains of 0..3 uncomputed formula cells
     # (in-memory workbook, no stored values), optionally after set_value on the deepest input, optionally with an
     # operand block that is itself the target of an (identity) array formula; result shape ≠ target shape
@@ -456,11 +515,11 @@ def enc_value(v):
     return core.enc(v)
 
 
-def target_addr(h, w):
-    a = f'{col(TARGET_COL)}{TARGET_ROW}'
+def target_addr(h, w, tc=TARGET_COL):
+    a = f'{col(tc)}{TARGET_ROW}'
     if h == 1 and w == 1:
         return a
-    return f'{a}:{col(TARGET_COL + w - 1)}{TARGET_ROW + h - 1}'
+    return f'{a}:{col(tc + w - 1)}{TARGET_ROW + h - 1}'
 
 
 def run_workbook(c):
@@ -470,6 +529,7 @@ def run_workbook(c):
     from pycel import ExcelCompiler
     from pycel.excelformula import FormulaEvalError
     h, w = c['h'], c['w']
+    tc = target_col(c['form'])
     f, cells, _ranges = formula_of(c['form'])
     wb = openpyxl.Workbook()
     ws = wb.active
@@ -492,8 +552,8 @@ def run_workbook(c):
     if c.get('setv') and cells:
         changed = sorted(cells)[0]
         ws[deep[changed]] = 99          # the value before set_value
-    top = f'{col(TARGET_COL)}{TARGET_ROW}'
-    ws[top] = ArrayFormula(target_addr(h, w), f)
+    top = f'{col(tc)}{TARGET_ROW}'
+    ws[top] = ArrayFormula(target_addr(h, w, tc), f)
     if c.get('file'):
         # through a real .xlsx: openpyxl writes the array formula, ExcelOpxWrapper.load reads it back
         fd, path = tempfile.mkstemp(suffix='.xlsx', prefix='c13-')
@@ -507,19 +567,19 @@ def run_workbook(c):
         comp = ExcelCompiler(excel=wb)
 
     def members():
-        return tuple(tuple(comp.evaluate(f'Sheet1!{col(TARGET_COL + j)}{TARGET_ROW + i}') for j in range(w))
+        return tuple(tuple(comp.evaluate(f'Sheet1!{col(tc + j)}{TARGET_ROW + i}') for j in range(w))
                      for i in range(h))
     try:
         if changed is not None:
             # everything computed once with the old input, then the deep input changes
-            comp.evaluate('Sheet1!' + target_addr(h, w))
+            comp.evaluate('Sheet1!' + target_addr(h, w, tc))
             members()
             comp.set_value('Sheet1!' + deep[changed], cells[changed])
         if c.get('mf'):                 # member cells first, then the target range
             mem = members()
-            res = comp.evaluate('Sheet1!' + target_addr(h, w))
+            res = comp.evaluate('Sheet1!' + target_addr(h, w, tc))
         else:
-            res = comp.evaluate('Sheet1!' + target_addr(h, w))
+            res = comp.evaluate('Sheet1!' + target_addr(h, w, tc))
             mem = members()
     except FormulaEvalError:
         return '!raise'
@@ -572,8 +632,8 @@ def model_lines(c):
     if k == 'fit':
         return [f"c13 fit {c['h']} {c['w']} {proto(c['res'])}"]
     if 'chain' in c:
-        return [f"c13 wbc {c['chain']} {TARGET_ROW} {TARGET_COL} {c['h']} {c['w']} {form_line(c['form'])}"]
-    return [f"c13 wb {TARGET_ROW} {TARGET_COL} {c['h']} {c['w']} {form_line(c['form'])}"]
+        return [f"c13 wbc {c['chain']} {TARGET_ROW} {target_col(c['form'])} {c['h']} {c['w']} {form_line(c['form'])}"]
+    return [f"c13 wb {TARGET_ROW} {target_col(c['form'])} {c['h']} {c['w']} {form_line(c['form'])}"]
 
 
 def same(impl_out, model_out):
@@ -647,6 +707,8 @@ def governed(c):
 def bucket(c):
     form = form_of(c)
     if c['k'] == 'wb':
+        if c.get('large'):
+            return 'wb:large'
         if 'chain' in c:
             return f"wb:chain{c['chain']}" + (':set_value' if c.get('setv') else '')
         if c['h'] == 1 and c['w'] == 1:
